@@ -70,6 +70,35 @@ CHECKS["C06"] = dict(
               "implementation graphs + invariant monitor on every result (corpus, generators, chained scripts)",
 )
 
+CHECKS["C09"] = dict(
+    category="translation_validation",
+    text="Translation validation of generated core-SQL programs, with a proved reduction. Proved in Lean (Props/C09.lean): the model of "
+         "the analyzer takes no dialect (analyze_dialect_free / run_dialect_free, definitional) and agreement of every accepting dialect "
+         "with ONE reference implies pairwise agreement (agreement_reduction, _accepting, _modulo, _masked, agreement_from_reference); "
+         "structural facts about the normalised tree shape the typed AST stands for (Model/Shape.lean: root type = dispatch type, clause "
+         "arities); the statement-type renamings the shape check allow-lists are claimed by the same extractor in the REGENERATED dispatch "
+         "table (alias_same_extractor) and impala's CTAS type by none (dev_K3_unclaimed). NOT provable: that ~30 third-party grammars turn "
+         "the text into that tree. Validated per generated statement on the real code: (a) shape correspondence - the tree the analyzer "
+         "actually received under every accepting sqlfluff dialect (tapped at Linter.parse_string), normalised, equals the Lean shape "
+         "modulo an explicit counted allow-list of per-dialect wrappers/renamings; (b) agreement - tables and the complete set of column "
+         "paths identical under every accepting dialect (8 in quick, all 28 in thorough; acceptance matrix in the evidence) and the same "
+         "TABLE lineage from dialect='non-validating'; implementation vs implementation, the model is not the oracle; (c) tsql batch "
+         "path: scripts agree under ansi, tsql, and tsql with TSQL_NO_SEMICOLON. A disagreement is accepted only inside a decidable "
+         "syntactic class (Lean Spec/Agreement.lean, Spec.deviations) listed for that analyzer in known_findings.json; anything else is "
+         "shrunk on the AST and reported",
+    design_ref="DESIGN.md §5 C09, §2.2 (shape correspondence), §7",
+    note=TB + ". The level is translation_validation, not proof: the theorems are the (trivial but honest) reduction and shape facts; the "
+         "universal claim over statements x dialect pairs rests on the per-program validation, bounded by the generator (harness/gensql.py "
+         "defines 'core SQL': SELECT with joins/comma lists/derived tables/subqueries/CASE/functions/windows/casts, set operations, WITH, "
+         "INSERT..query, CTAS, CREATE VIEW over keyword-free identifiers; column `d` is replaced because snowflake reads it as a date "
+         "part). Trusted: sqlfluff/sqlparse as black boxes, the normalisation filter and the allow-list in harness/c09.py, PYTHONHASHSEED "
+         "fixed by ./check. Known findings on the unchanged tree: K1 clickhouse IN-subquery parsed as tuple, K2 exasol CREATE VIEW target "
+         "type, K3 impala CTAS statement type unclaimed, K4 oracle CASE..END alias without AS; legacy analyzer classes L1-L6, L8 and the "
+         "C01 classes D2/D3/D4 (there the legacy analyzer is the one that is right). The class predicates over-approximate the defects.",
+    technique="differential translation validation (dialect x dialect x legacy analyzer on Lean-rendered generated statements) + tree-shape "
+              "correspondence against a Lean-defined shape + Lean proof of the agreement reduction",
+)
+
 NOT_YET = "machinery not built yet (build phase in progress, see DESIGN.md §9)"
 
 
